@@ -1239,6 +1239,8 @@ def dec_neg(it, args, callee):
     a = args[0]
     if not is_sym(a.m) and a.m == 0:
         return Dec(0, a.s, None if a.src == 'negzero' else 'negzero')
+    if is_sym(a.m) and it.truth(a.m == 0):
+        return Dec(0, a.s, 'negzero')          # rust_decimal keeps the sign bit: the negation of zero is a negative zero
     return Dec(simp(-a.m) if is_sym(a.m) else -a.m, a.s)
 
 
@@ -1648,13 +1650,13 @@ def dec_unpack(it, args, callee):
 @model('rust_decimal::Decimal::is_sign_negative', 'Decimal::is_sign_negative')
 def dec_is_neg(it, args, callee):
     d = deref_all(args[0])
-    return (d.m < 0) if not is_sym(d.m) else simp(d.m < 0)
+    return (d.m < 0 or (d.m == 0 and d.src == 'negzero')) if not is_sym(d.m) else simp(d.m < 0)
 
 
 @model('rust_decimal::Decimal::is_sign_positive', 'Decimal::is_sign_positive')
 def dec_is_pos(it, args, callee):
     d = deref_all(args[0])
-    return (d.m >= 0) if not is_sym(d.m) else simp(d.m >= 0)
+    return (d.m > 0 or (d.m == 0 and d.src != 'negzero')) if not is_sym(d.m) else simp(d.m >= 0)
 
 
 @model('rust_decimal::Decimal::abs', 'Decimal::abs')
